@@ -1,5 +1,5 @@
 """C13 - A subscriber eventually learns every change it subscribed to (structural clauses; liveness and timing not decided)."""
-from common import (mentions, closure_in, async_body, closure_arg_sites, ok_return_bbs, call_bbs, named_local, src_calls,
+from common import (equality_tests, mentions, closure_in, async_body, closure_arg_sites, ok_return_bbs, call_bbs, named_local, src_calls,
                     src_fields, src_consts, bodies_of, result_used)
 from facts import AnchorLost, op_place
 import prims
@@ -71,6 +71,33 @@ def check(R):
         for fld, src in (('max_seen_attr_change_id', 'next_max_seen_attr_change_id'), ('max_seen_event_number', 'next_max_seen_event_number')):
             ws = [s for i, j, s in rcpl.field_writes(fld + ':' + SUB + 'Subscription')]
             R.expect('P10', rcpl.fn, f'the committed {fld} is the context\'s {src}', len(ws) == 1 and mentions(prims.sources(rcpl, ws[0][1]['a'][0]), src), 'ok', f'{len(ws)} writes')
+        # the in-flight bookkeeping (the `reporting` snapshot slot and a cancellation recorded against it) belongs to the report that
+        # `report()` started: a priming report that completes meanwhile (started by `add()` on a responder task) must neither vacate the
+        # slot nor consume the cancellation - both are cut by "the completing subscription is the one in the slot" (id equality)
+        rci = R.body(SUB + 'SubscriptionsInner::report_complete')
+        vac = sorted({i for i, j, st in rci.field_writes('reporting:' + SUB + 'SubscriptionsInner')} |
+                     {t.bb for t in rci.calls('core::option::Option::take') if any(f.startswith('reporting_cancelled:') for f in src_fields(prims.sources(rci, t.d['a'][0])))})
+        R.floor('vacating the reporting slot / taking its cancellation in report_complete', len(vac), 1)
+
+        def same_sub():
+            e = set()
+            isid = lambda s_: any(f.startswith('id:') for f in src_fields(s_)) or any(x[0] == 'upvar' and x[1].split('.')[-1] == 'id' for x in s_)
+            for (bb, neg, sa_, sb_, te_, fe_) in equality_tests(F, rci):
+                if isid(sa_) and isid(sb_):
+                    e |= te_
+            for t in rci.calls():
+                if not any(n.endswith(('Option::is_some_and', 'Option::map_or', 'Option::is_none_or')) for n in t.callee_names()):
+                    continue
+                clos = [x[1] for a in t.d['a'] for x in prims.sources(rci, a) if x[0] == 'closure']
+                for c_ in clos:
+                    cb_ = F.bodies.get(c_)
+                    if cb_ is not None and any(isid(sa_) and isid(sb_) for (bb, neg, sa_, sb_, te_, fe_) in equality_tests(F, cb_)):
+                        e |= prims.track_result(F, rci, t).success
+            if not e:
+                from facts import GuardMissing
+                raise GuardMissing(f'{rci.fn}: the completing subscription is not compared with the one in the reporting slot')
+            return e
+        R.cut('P2', rci, 'vacate the reporting slot / consume its cancellation', vac, 'the completing subscription is the one the slot was filled for (ids equal)', same_sub)
         sb = async_body(R, IM + '::subscribe')
         keep = call_bbs(sb, RC + '::set_keep')
         pr = named_local(sb, 'primed')
